@@ -14,6 +14,7 @@ import (
 	"encoding/json"
 	"fmt"
 	"math"
+	"math/big"
 	"math/rand"
 	"os"
 	"os/exec"
@@ -383,6 +384,35 @@ func modelOps(t *testing.T, out *hx.Out, seed int64, g *gen) {
 		out.Count("powerdiff")
 		if num > 0 {
 			out.Nontrivial(fmt.Sprintf("powerdiff:%d:%d:%v", len(b)/50, len(c)/50, pool > 1000))
+		}
+	}
+
+	// ---- binary64 addition of integer values against the Lean model (round53 / fadd): boundary-biased around 2^53
+	out.Reset("models-f64add")
+	pick := func() uint64 {
+		switch rng.Intn(6) {
+		case 0:
+			return uint64(rng.Int63n(1 << 32))
+		case 1:
+			return (uint64(1) << 53) + uint64(rng.Intn(9)) - 4
+		case 2:
+			return (uint64(1) << uint(52+rng.Intn(10))) + uint64(rng.Intn(4097)) - 2048
+		case 3:
+			return uint64(rng.Int63())
+		case 4:
+			return uint64(rng.Intn(5))
+		default:
+			return uint64(rng.Int63n(1 << 54))
+		}
+	}
+	for i := 0; i < hx.N(300, 3000); i++ {
+		a, b := pick(), pick()
+		sum := float64(a) + float64(b)
+		v, _ := new(big.Float).SetFloat64(sum).Int(nil)
+		out.Emit(fmt.Sprintf("f64add %d %d", a, b), v.String())
+		out.Count("f64add")
+		if new(big.Int).Add(new(big.Int).SetUint64(a), new(big.Int).SetUint64(b)).Cmp(v) != 0 {
+			out.Nontrivial(fmt.Sprintf("f64add-rounded:%d", v.BitLen()))
 		}
 	}
 
